@@ -7,6 +7,7 @@ sys.path.insert(0, os.path.join(os.path.dirname(os.path.abspath(__file__)), ".."
 import vf
 import lanes
 import fpgen
+import sweep
 
 FT = [("f32", 4, 8, 23), ("f64", 8, 11, 52)]
 UN = ["exp", "exp2", "exp10", "expm1", "log", "log2", "log10", "log1p", "sin", "cos", "tan", "asin", "acos", "atan", "sinh", "cosh", "tanh",
@@ -104,6 +105,24 @@ def body(ctx):
     if r["ok"]:
         raise vf.InfraError("K_Gamma as-shipped configuration no longer exhibits the unbounded run: the loop model lost its teeth")
     plan = lanes.replay_plan(ctx.replay) if ctx.replay else make_plan(ctx)
+    if not ctx.replay and not os.environ.get("VERIF_NO_SWEEP"):
+        # selector sweep: EVERY float32 bit pattern (quick tier: every 64th, offset by the seed) and a seeded sample of double rows through
+        # every unary function; a call that does not return within 3 s and, for the instrumented gamma loops, the row with the most
+        # iterations of every binade are appended to the plan, where the watchdog / T_Loops judge them
+        jobs = []
+        for t in ("f32", "f64"):
+            for ai, arch in enumerate(ctx.q(["sse2", "avx512f"], ["sse2", "avx2", "avx512f"])):
+                for op in UN:
+                    lp = op in ("tgamma", "lgamma")
+                    if t == "f32":
+                        stride = int(os.environ.get("VERIF_SWEEP_STRIDE", "0")) or ctx.q(64, 1 if arch == "avx512f" else 8)
+                        jobs.append(sweep.job("lp" if lp else "m1", op, t, arch, "ticks" if lp else "term", "-", stride, ctx.seed * 13 + ai, 0, 0x7FFFFFFF, "+-"))
+                    else:
+                        jobs.append(sweep.job("lp" if lp else "m1", op, t, arch, "ticks" if lp else "term", "-", ctx.q(20000, 400000), ctx.seed * 13 + ai, 1, 0x7FEFFFFFFFFFFFFF, "+-"))
+        srows, _info = sweep.run(ctx, "math", jobs, "c14sel", keep=ctx.q(16, 64))
+        for r in srows:
+            nb = 4 if r["t"] == "f32" else 8
+            plan.append("lp %s %s 0 %s - - -" % (r["op"], r["t"], sweep.hexrow(r, nb)))
     ctx.log("plan: %d lines" % len(plan))
     events, plan = lanes.record(ctx, "math", plan, "c14", watchdog_ms=500)
     nraw = len(events)
